@@ -36,6 +36,14 @@ func vcp(b []byte) []byte { return append([]byte{}, b...) }
 
 // verifHarnessC19: command sequences over a small key space mixing all five types, deletions, re-creation with
 // another type, expiry and restarts; every reply equals the reference model's.
+// vVal19 draws a command argument value: 1 byte, or (param vlen0) 0 or 1 bytes.
+func vVal19(name string) []byte {
+	if verifParam("vlen0") == 1 && verifChoice(name+"-empty", 2) == 1 {
+		return verifBytes(name, 0)
+	}
+	return verifBytes(name, 1)
+}
+
 func verifHarnessC19() {
 	K := verifParam("k")
 	nk := verifParam("keys")
@@ -48,6 +56,10 @@ func verifHarnessC19() {
 	}
 	elems := make([][]byte, 2)
 	for i := range elems {
+		if i == 0 && verifParam("elen0") == 1 {
+			elems[i] = verifBytes("elem", 0) // the empty field / member name is a name like any other
+			continue
+		}
 		elems[i] = verifBytes("elem", 1)
 	}
 	verifAssume(verifBytesLess(elems[0], elems[1]))
@@ -79,7 +91,7 @@ func verifHarnessC19() {
 		wrong := func(k vKind) bool { return s.kind != vNone && s.kind != k }
 		switch cmds[verifChoice("cmd", len(cmds))] {
 		case cSet:
-			v := verifBytes("v", 1)
+			v := vVal19("v")
 			ttlSteps := verifChoice("ttl", 3) // 0 = none, 1 = expires at the next step, 2 = far away
 			var ttl time.Duration
 			exp := 0
@@ -114,7 +126,7 @@ func verifHarnessC19() {
 			}
 		case cHSet:
 			f := verifChoice("fi", 2)
-			v := verifBytes("hv", 1)
+			v := vVal19("hv")
 			isNew, err := dts.HSet(key, elems[f], v)
 			if wrong(vHash) {
 				verifAssert(err == ErrWrongTypeOperation, "C19.hset-wrongtype")
@@ -181,7 +193,7 @@ func verifHarnessC19() {
 			delete(s.set, f)
 		case cLPush, cRPush:
 			left := cmds[0] != cRPush && verifChoice("left", 2) == 0
-			v := verifBytes("lv", 1)
+			v := vVal19("lv")
 			var n uint32
 			var err error
 			if left {
